@@ -106,4 +106,13 @@ def runner_lines(tr: Trace) -> tuple[list[str], list[str]]:
         else:
             res = enc.result_line(c.after, c.cmds)
         outs.append(enc.tick(tk) + " @@ " + _summary(c.runner, c.stream_len) + " => " + res)
+    # the adapter's tick log (what ctx.to_dict()/replay is rebuilt from) is the model's log
+    if tr.handler is not None:
+        try:
+            logged = list(tr.handler._external_adapter.replay())
+        except Exception:
+            logged = None
+        if logged is not None:
+            ops.append("rticks")
+            outs.append(enc.lst([enc.tick(t) for t in logged]))
     return ops, outs
